@@ -37,7 +37,11 @@ def expected(shape, s, e):
         prod *= x
     out = list(shape[:a]) + [prod] + list(shape[b + 1:])
     # what reshaping a real array that way yields
-    assert list(np.zeros(shape, dtype=np.int8).reshape(out).shape) == out
+    total = 1
+    for x in shape:
+        total *= x
+    if total <= 2_000_000:
+        assert list(np.zeros(shape, dtype=np.int8).reshape(out).shape) == out
     return out
 
 
@@ -79,6 +83,21 @@ def gen(rng, tier):
         if kind == "infer":
             form = "nd"
         cases.append(mk(kind, form, shape, s, e))
+    # ndarray shapes of narrow integer dtypes whose merged product exceeds the dtype's range
+    for _ in range(40 if tier == "quick" else 600):
+        dt = rng.choice(["int8", "uint8", "int16", "uint16", "int32"])
+        n = rng.choice([2, 3, 4])
+        big = {"int8": [8, 16, 4, 12], "uint8": [16, 32, 20], "int16": [200, 128, 64], "uint16": [256, 300, 64], "int32": [70000, 40000, 3]}[dt]
+        shape = [rng.choice(big) for _ in range(n)]
+        a = rng.randrange(n); b = rng.randrange(a, n)
+        kind = rng.choice(["util", "construct", "construct", "infer"])
+        cases.append(mk(kind, "nd:" + dt, shape, rng.choice([a, a - n]), rng.choice([b, b - n])))
+    # merged ranges made of singleton axes only (the merged axis has length 1)
+    for _ in range(20 if tier == "quick" else 200):
+        n = rng.choice([2, 3, 4])
+        shape = [rng.choice([1, 1, 1, 7]) for _ in range(n)]
+        a = rng.randrange(n); b = rng.randrange(a, n)
+        cases.append(mk(rng.choice(["util", "construct", "infer"]), rng.choice(["nd", "list", "tuple"]), shape, a, b))
     # malformed stream
     cases.append(mk("util", "list", [], 0, -1))
     cases.append(mk("construct", "nd", [2, 3], 5, 7))
@@ -90,7 +109,7 @@ def recipe_for(c):
         return {"k": "Flatten", "args": {"input_type": shape_form(c["shape"], c["form"]),
                                          "start_dim": c["s"], "end_dim": c["e"]}}
     return {"k": "NIRGraph", "nodes": {
-        "in": {"k": "Input", "args": {"input_type": shape_form(c["shape"], "nd")}},
+        "in": {"k": "Input", "args": {"input_type": shape_form(c["shape"], c["form"] if c["form"].startswith("nd") else "nd")}},
         "fl": {"k": "Flatten", "args": {"input_type": None, "start_dim": c["s"], "end_dim": c["e"]}},
         "out": {"k": "Output", "args": {"output_type": None}}},
         "edges": [("in", "fl"), ("fl", "out")]}
